@@ -34,6 +34,10 @@ def check(rep, rule, rel, qualname, kind, target, text, message, setter=False, a
     or a list of texts in order), 'ret' (returned value; target = index into a returned tuple or None),
     'iter' (the iterable of the loop whose iterable mentions `target`)."""
     fn, tr, env = function_env(rel, qualname, setter)
+    for t_ in (text if isinstance(text, list) else [text]):
+        core.require_names(fn, t_, f"{rel}::{qualname}")
+    if isinstance(target, str):
+        core.require_names(fn, [x for x in [target.split("[")[0].split(".")[0]] if x != "self"], f"{rel}::{qualname}")
     got = None
     if kind == "assign" and raw:
         # the target is rebound from its own previous value: compare the source expressions as they stand
@@ -54,6 +58,8 @@ def check(rep, rule, rel, qualname, kind, target, text, message, setter=False, a
             got = hit[0] if hit else vals[-1]
     elif kind == "aug":
         vals = tr.appends.get("aug:" + target, [])
+        if not vals:
+            raise AnalysisError(f"formula site vanished: {rel}::{qualname} has no accumulation into {target}")
         texts = text if isinstance(text, list) else [text]
         ok = len(vals) == len(texts) and all(symalg.same(v, expected(tr, env, t))[0] for (op, v), t in zip(vals, texts))
         rep.instance(rule, rel, qualname, f"{target} accumulates {texts}", ok, message, line=fn.lineno)
@@ -69,6 +75,8 @@ def check(rep, rule, rel, qualname, kind, target, text, message, setter=False, a
                 got = got.args[0]
     elif kind == "iter":
         loops = [lp for lp in ast.walk(fn) if isinstance(lp, ast.For) and target in core.src(lp.iter)]
+        if not loops:
+            raise AnalysisError(f"formula site vanished: {rel}::{qualname} has no loop over {target}")
         oks = [symalg.same(tr.expr(lp.iter, env), expected(tr, env, text))[0] for lp in loops]
         rep.instance(rule, rel, qualname, f"loop over {text}", bool(loops) and all(oks), message, line=fn.lineno)
         return bool(loops) and all(oks)
